@@ -87,7 +87,9 @@ Record tables := mk_tables {
   tb_lits : list msg_lit;
   tb_writes : list clear_write;
   tb_flows : list marshal_flow;
-  tb_crw : crw_shape }.
+  tb_crw : crw_shape;
+  tb_sniff : list sniff_site;
+  tb_listeners : list listener_call }.
 
 Definition find_enc (T : tables) (file func : string) : option enc_site :=
   find (fun s => String.eqb (es_file s) file && String.eqb (es_func s) func) (tb_enc T).
@@ -339,6 +341,72 @@ Definition vpayload_term (T : tables) (v : vcfg) (d : dir) (c : Z) : term :=
   | Up => enc_layer T "server/visitor/visitor.go" "NewConn" "" "" (ctxp (v_sk v)) (v_enc v) (v_comp v) inner
   end.
 
+(* ---------- listeners of frps and the force flag each one hands to the sniff ---------- *)
+Inductive lkind := LkTcp | LkTlsMux | LkKcp | LkWebsocket | LkQuic | LkSsh.
+
+(* the second argument of the svr.HandleListener(l, internal) call that serves the listener *)
+Definition listener_expr (l : lkind) : option string :=
+  match l with
+  | LkTcp => Some "svr.listener" | LkTlsMux => Some "svr.tlsListener" | LkKcp => Some "svr.kcpListener"
+  | LkWebsocket => Some "svr.websocketListener" | LkSsh => Some "svr.sshTunnelListener"
+  | LkQuic => None                       (* HandleQUICListener: no sniff at all, QUIC is TLS *)
+  end%string.
+
+Definition listener_internal (T : tables) (l : lkind) : option bool :=
+  match listener_expr l with
+  | None => None
+  | Some e =>
+      match filter (fun c => String.eqb (lc_listener c) e) (tb_listeners T) with
+      | [c] => if String.eqb (lc_internal c) "false" then Some false
+               else if String.eqb (lc_internal c) "true" then Some true else None
+      | _ => None
+      end
+  end.
+
+Inductive force_res :=
+| NoSniff                 (* the listener's connections never reach the sniff *)
+| ForceIs (b : bool)      (* the sniff is called with tlsOnly = b *)
+| ForceBad.               (* today's tables do not determine it *)
+
+(* server/service.go HandleListener: if !internal { forceTLS := svr.cfg.Transport.TLS.Force; sniff(..., forceTLS, ...) } *)
+Definition sniff_force (T : tables) (configured : bool) (l : lkind) : force_res :=
+  match l with
+  | LkQuic => NoSniff
+  | _ =>
+      match listener_internal T l, tb_sniff T with
+      | Some true, [s] => match ss_guard s with SgNotInternal => NoSniff | _ => ForceBad end
+      | Some false, [s] =>
+          match ss_guard s, ss_force s with
+          | SgNotInternal, FConfigForce | SgNone, FConfigForce => ForceIs configured
+          | _, _ => ForceBad
+          end
+      | _, _ => ForceBad
+      end
+  end.
+
+Definition sniffing_kinds : list lkind := [LkTcp; LkTlsMux; LkKcp; LkWebsocket].
+
+Definition lkind_eqb (a b : lkind) : bool :=
+  match a, b with
+  | LkTcp, LkTcp | LkTlsMux, LkTlsMux | LkKcp, LkKcp | LkWebsocket, LkWebsocket | LkQuic, LkQuic | LkSsh, LkSsh => true
+  | _, _ => false
+  end.
+
+(* every network listener served by HandleListener hands the configured flag to the sniff;
+   only the in-process ssh gateway listener is internal *)
+Definition sniff_ok (T : tables) : bool :=
+  forallb (fun l => match sniff_force T true l, sniff_force T false l with
+                    | ForceIs true, ForceIs false => true | _, _ => false end) sniffing_kinds &&
+  match sniff_force T true LkSsh with NoSniff => true | _ => false end &&
+  (length (tb_listeners T) =? 5)%nat.
+
+(* the frps listener a client configuration arrives on *)
+Definition listener_of (c : wcfg) : lkind :=
+  if is_quic c then LkQuic
+  else if String.eqb (ct_protocol (w_client c)) "kcp" then LkKcp
+  else if String.eqb (ct_protocol (w_client c)) "websocket" then LkWebsocket
+  else if conn_tls c then LkTlsMux else LkTcp.
+
 (* ---------- the wire ---------- *)
 Record wstate := mk_wstate { ws_up : bool }.
 Definition init : wstate := {| ws_up := false |}.
@@ -476,6 +544,6 @@ Definition enc_ok (T : tables) : bool :=
   forallb (enc_site_ok T) (tb_enc T) && pairs_ok T && (9 <=? Z.of_nat (length (tb_enc T))).
 
 Definition facts_ok (T : tables) : bool :=
-  auth_ok T && lits_ok T && writes_ok T && ctl_ok T && flows_ok T && enc_ok T.
+  auth_ok T && lits_ok T && writes_ok T && ctl_ok T && flows_ok T && enc_ok T && sniff_ok T.
 
 End Wire.
